@@ -35,8 +35,12 @@ class Result:
                          "states": 0, "transitions": 0, "traces_validated_against_impl": 0}
         self.assumptions = []
         self.notes = {}
+        self.kinds = {}
 
     def add_violation(self, clause, replay_obj):
+        import re
+        kind = re.sub(r"(s|a|d|at)=\S+", "", clause)
+        self.kinds[kind] = self.kinds.get(kind, 0) + 1
         if len(self.violations) >= 20:      # enough to act on; keep the replay directory small
             self.violations.append({"clause": clause, "replay": self.violations[-1]["replay"]})
             return
@@ -62,6 +66,7 @@ class Result:
             "violations": len(self.violations),
             "known_findings_matched": self.known,
             "clauses_exercised": self.notes,
+            "violation_kinds": self.kinds,
         }
         os.makedirs(os.path.join(VERIF, "evidence"), exist_ok=True)
         with open(os.path.join(VERIF, "evidence", self.prop + ".json"), "w") as f:
